@@ -36,6 +36,7 @@ func runC16(c *Ctx, r *Report) {
 	c16EscapedWrites(c, r)
 	c16RuneNarrowing(c, r)
 	c16NumberGrammar(c, r, "C16-e/number-grammar")
+	c16ContextReadOnly(c, r, "C16-g/context-read-only")
 	// (f) building the object cannot crash: every index / slice expression of the JSON writer is in range
 	if bce, err := bceList(c); err != nil {
 		r.Undecided("C16-f/bce", "compiler", "listing", "-", err.Error())
